@@ -85,7 +85,7 @@ def build(d, b, rep=1, ra=1):
         pw.build_cube(d, [cname(i, k) for i, k in ids], wav, aps,
                       lambda m, a, w: cfac * kfac(ids[m][1]) * afac(a) * float(Fl(ids[m][0], (a % 2) + 1, ng - w)),
                       lambda m, a, w: cfac * kfac(ids[m][1]) * afac(a) * float(Er(ids[m][0], (a % 2) + 1, ng - w)), order=b['stored'][0],
-                      aperture_dependent=(b['na'] > 1), table_names=[cname(i, k) for k in range(rep) for i in b['tab']], flux_unit=cunit, ap_unit=apu)
+                      aperture_dependent=(b['na'] > 1), table_names=[cname(i, k) for k in range(rep) for i in b['tab']], flux_unit=cunit, ap_unit=apu, unc_twin=bool((b['list'][0] + rep) % 2))
 
 
 def history_between(d):
